@@ -42,7 +42,10 @@ func (c Case) String() string {
 func program(c Case) *progs.Prog {
 	switch c.Prog {
 	case "sparse":
-		return progs.ClockSparse(c.MInit)
+		// output = the sparse mapper itself: non-empty on one block out of four, skip_empty_output elsewhere
+		p := progs.ClockSparse(c.MInit)
+		p.Output = "sp"
+		return p
 	case "maponly":
 		return progs.MapOnly(c.MInit)
 	}
